@@ -51,6 +51,7 @@ type w3Body struct {
 	GOP         int        `json:"gop"`
 	AudioMs     int64      `json:"audio_ms"`
 	AudioLagMs  int64      `json:"audio_lag_ms,omitempty"` // audio units reach the stream that much later than video units of the same time
+	VideoLagMs  int64      `json:"video_lag_ms,omitempty"` // or the video units that much later than the audio units
 	// the timestamps of the audio units are that much after those of the video units (a
 	// publisher whose second track starts a few milliseconds after its first key frame)
 	AudioOffMs int64 `json:"audio_off_ms,omitempty"`
@@ -86,6 +87,9 @@ func (w *w3World) Gen(rng *rand.Rand, property, tier string) (any, simrt.Sched) 
 	b.Audio = !b.Video || rng.Intn(3) != 0
 	if b.Video && b.Audio {
 		b.AudioLagMs = []int64{0, 0, 30, 250, 700}[rng.Intn(5)]
+		if b.AudioLagMs == 0 && rng.Intn(3) == 0 {
+			b.VideoLagMs = []int64{30, 250}[rng.Intn(2)]
+		}
 		b.AudioOffMs = []int64{0, 0, 5, 13}[rng.Intn(4)]
 	}
 	if b.Audio && rng.Intn(4) == 0 {
@@ -188,6 +192,7 @@ type w3Harness struct {
 	inst    int            // recorder instances started so far (a write error or a time jump restarts the recorder)
 	segInst map[string]int // segment file -> recorder instance that created it
 	twice   map[string]bool // segment files the recorder created more than once (the later creation truncates the earlier file)
+	twiceSame map[string]bool // ... by one and the same recorder instance
 	done    []string
 	ntpBase time.Time
 
@@ -277,6 +282,15 @@ func (h *w3Harness) record() bool {
 						h.twice[filepath.Base(p)] = true
 						simrt.Rec("seg.created-twice", filepath.Base(p), "", 0, 0, 0)
 					}
+					// by the same recorder instance: two of its segments got the same start time.
+					// (Another instance re-creates a name when absolute time has jumped back: file
+					// names are instants, a repeated instant is a repeated name.)
+					if h.segInst[filepath.Base(p)] == h.inst {
+						if h.twiceSame == nil {
+							h.twiceSame = map[string]bool{}
+						}
+						h.twiceSame[filepath.Base(p)] = true
+					}
 				}
 			}
 			if h.segInst == nil {
@@ -322,12 +336,13 @@ func (h *w3Harness) record() bool {
 			at := time.Duration(aFrame)*time.Duration(b.AudioMs)*time.Millisecond + time.Duration(b.AudioOffMs)*time.Millisecond
 			// units are written in arrival order; audio may lag behind video of the same time
 			atArr := at + time.Duration(b.AudioLagMs)*time.Millisecond
-			isVideo := b.Video && (!b.Audio || vt <= atArr)
+			vtArr := vt + time.Duration(b.VideoLagMs)*time.Millisecond
+			isVideo := b.Video && (!b.Audio || vtArr <= atArr)
 			t := at
 			arr := atArr
 			if isVideo {
 				t = vt
-				arr = vt
+				arr = vtArr
 			}
 			if d := arr - elapsed(); d > 0 {
 				time.Sleep(d)
